@@ -20,7 +20,7 @@ pub(crate) use call::call_with;
 pub use call::{Call, Reply};
 #[doc(inline)]
 pub use error::{CallError, DeliverError};
-use flume::{Sender, TrySendError};
+use flume::{Receiver as FlumeReceiver, Sender, TrySendError};
 pub(crate) use name::Name;
 pub(crate) use receiver::{MailboxEvent, Receiver, make_mailbox};
 
@@ -32,6 +32,9 @@ pub const DEFAULT_MAILBOX_CAPACITY: NonZeroUsize = NonZeroUsize::new(64).unwrap(
 struct MailboxInner<A: Actor> {
     name: Option<Name>,
     messages: Sender<Delivering<A>>,
+    /// A second handle on the message queue, only ever used to empty it once
+    /// the actor is gone.
+    leftovers: FlumeReceiver<Delivering<A>>,
     stop: Sender<()>,
     stopping: AtomicBool,
     capacity: NonZeroUsize,
@@ -52,7 +55,16 @@ impl<A: Actor> MailboxInner<A> {
             .map_err(|error| match error {
                 TrySendError::Full(message) => DeliverError::Full(message.recover::<M>()),
                 TrySendError::Disconnected(message) => DeliverError::Closed(message.recover::<M>()),
-            })
+            })?;
+
+        // The actor may have gone away between the check above and the
+        // enqueue. It emptied the queue when it left and will not look at it
+        // again, so do that for it: a request left behind would keep its caller
+        // waiting for a reply forever.
+        if self.stop.is_disconnected() {
+            while self.leftovers.try_recv().is_ok() {}
+        }
+        Ok(())
     }
 
     fn stop(&self) -> bool {
@@ -67,9 +79,10 @@ impl<A: Actor> MailboxInner<A> {
     }
 
     fn is_closed(&self) -> bool {
-        self.stopping.load(Ordering::Acquire)
-            || self.messages.is_disconnected()
-            || self.stop.is_disconnected()
+        // `leftovers` keeps the message channel connected for as long as the
+        // mailbox exists; the stop channel is the one that tells whether the
+        // actor still holds its receiving end.
+        self.stopping.load(Ordering::Acquire) || self.stop.is_disconnected()
     }
 }
 
